@@ -14,7 +14,7 @@ TOKENS = ["BEGIN:", "END:", "VCALENDAR", "VEVENT", "VTODO", "VTIMEZONE", "STANDA
           "TZNAME", "VALUE=DATE", "VALUE=PERIOD", "TZID=Europe/Berlin", "TZID=Europe", "TZID=" + "A" * 300, "TZID=/x", "TZID=Custom", "20240101T000000",
           "20240101T000000Z", "20240101", "P1D", "PT1H", "P99999999999D", "-P1W", "+0100", "-0500", "+2500", "+01", "FREQ=DAILY", "FREQ=YEARLY;BYMONTH=",
           "BYMONTH=99", "BYDAY=1SU", "COUNT=x", "UNTIL=20240101", "19970101T180000Z/19970102T070000Z", "19970102T000000Z/19970101T000000Z",
-          "20240101T000000/20240101", "20240101T000000Z/20240102T000000", "TRIGGER", "REPEAT", "ACTION", "SUMMARY", "GEO", "1.0;2.0", "x;y",
+          "20240101T000000/20240101", "20240101T000000Z/20240102T000000", "20240101/20240102", "20240101/P1D", "TRIGGER", "REPEAT", "ACTION", "SUMMARY", "GEO", "1.0;2.0", "x;y",
           "ATTACH", "ENCODING=BASE64", "!!!", "ATTENDEE", "CN=", "ROLE=CHAIR,,OPT", 'MEMBER="mailto:a",', "TZID=Europe/Berlin,Europe/Paris", "TZID=Europe/Berlin,",
           "00010101T000000", "99991231T235959", "TZID=Asia/Tokyo", "X-COMMENT", "0", "-1", "a", "ä", "\x00", "﻿", "%2C", "PRIORITY", "SEQUENCE", "abc"]
 VTZ = """BEGIN:VTIMEZONE
@@ -216,9 +216,16 @@ def replay_witness(w):
     from icalendar import prop, parser
     icalendar.timezone.tzp.use(w.get("provider", "zoneinfo"))
     try:
-        if "decoder" in w or "line_function" in w or "tzid" in w:
+        if "decoder" in w or "line_function" in w or "tzid" in w or "constructor" in w:
             try:
-                if "decoder" in w:
+                if "constructor" in w:
+                    cls = getattr(prop, w["constructor"])
+                    try:
+                        v = cls.from_ical(w["text"])
+                    except Exception:  # noqa
+                        return None
+                    cls(v)
+                elif "decoder" in w:
                     getattr(prop, w["decoder"]).from_ical(w["text"])
                 elif "tzid" in w:
                     icalendar.timezone.tzp.timezone(w["tzid"])
@@ -286,6 +293,22 @@ def confirm(oid, bad_classes=None):
                         r = decoder_fuzz(c, rnd)
                         if r:
                             return {"line_function": label, "text": r[0], "provider": prov}, f"{label}({r[0]!r}) raises {r[1]}"
+            elif ".K." in oid:
+                # the call shape of the parse loop: factory(factory.from_ical(text)) for texts the decoder accepts
+                cn = oid.split(".K.")[1].split(".")[0]
+                cls = getattr(prop, cn, None)
+                if cls is None:
+                    return None
+
+                def construct(t, cls=cls):
+                    try:
+                        v = cls.from_ical(t)
+                    except Exception:  # noqa  (the decoder's own failures belong to the D obligations)
+                        return
+                    cls(v)
+                r = decoder_fuzz(construct, rnd)
+                if r:
+                    return {"constructor": cn, "text": r[0], "provider": prov}, f"{cn}({cn}.from_ical({r[0]!r})) raises {r[1]} [{prov}]"
             elif ".T." in oid:
                 for t in TOKENS + ["Europe", "A" * 300, "/x", "", "\x00", "../../x", "Europe/Berlin/"]:
                     try:
